@@ -1,0 +1,46 @@
+//! Verification hooks (feature `verif-hooks`): snapshot of the estimator state and a
+//! setter for the sketch seeds (which the std build draws from the wall clock).
+use super::TinyLFU;
+use alloc::vec::Vec;
+
+/// Snapshot of a [`TinyLFU`].
+#[doc(hidden)]
+#[derive(Debug, Clone, PartialEq, Eq, Hash)]
+pub struct VerifTinyLFUState {
+    /// The four sketch rows, one 4-bit counter per element.
+    pub rows: Vec<Vec<u8>>,
+    /// Row seeds (std sketch) or `None` (no_std sketch).
+    pub seeds: Option<[u64; 4]>,
+    /// Counter index mask of the sketch.
+    pub mask: u64,
+    /// Doorkeeper bit set.
+    pub bitset: Vec<u64>,
+    /// Number of doorkeeper locations per key.
+    pub set_locs: u64,
+    /// Accesses recorded since the last reset.
+    pub w: usize,
+    /// Configured sample size.
+    pub samples: usize,
+}
+
+impl<K, KH> TinyLFU<K, KH> {
+    /// Snapshot of counters, doorkeeper and sample counter.
+    #[doc(hidden)]
+    pub fn verif_state(&self) -> VerifTinyLFUState {
+        VerifTinyLFUState {
+            rows: self.ctr.verif_rows(),
+            seeds: self.ctr.verif_seeds(),
+            mask: self.ctr.verif_mask(),
+            bitset: self.doorkeeper.verif_bits().to_vec(),
+            set_locs: self.doorkeeper.verif_set_locs(),
+            w: self.w,
+            samples: self.samples,
+        }
+    }
+
+    /// Pins the sketch seeds (no-op for the no_std sketch, which has none).
+    #[doc(hidden)]
+    pub fn verif_set_seeds(&mut self, seeds: [u64; 4]) {
+        self.ctr.verif_set_seeds(seeds)
+    }
+}
